@@ -1,6 +1,8 @@
 package engine
 
 import (
+	"go/token"
+
 	"golang.org/x/tools/go/ssa"
 )
 
@@ -111,4 +113,24 @@ func SliceHas(v ssa.Value, m M) bool {
 		}
 	}
 	return false
+}
+
+// AllocStoresOf lists the Store instructions whose address is rooted at a.
+func AllocStoresOf(a *ssa.Alloc) []*ssa.Store { return allocStores(a) }
+
+// Forwarded resolves a load whose cell was stored earlier in the same block
+// (defer-spilled results, address-taken locals) to the stored value.
+func Forwarded(v ssa.Value) ssa.Value {
+	for i := 0; i < 8; i++ {
+		u, ok := v.(*ssa.UnOp)
+		if !ok || u.Op != token.MUL {
+			return v
+		}
+		f := forwardedStore(u)
+		if f == nil {
+			return v
+		}
+		v = f
+	}
+	return v
 }
